@@ -58,6 +58,9 @@ var boundaryFloats = []float64{0, 1, -1, 0.5, 1.5, 1e21, 1e-7, 1e20, 123456789.1
 
 // ---------------------------------------------------------------- filler
 
+// smallMaps is set from the plan's configuration (see plan.Config.SmallMaps).
+var smallMaps bool
+
 type filler struct {
 	r      *plan.Rng
 	faulty bool
@@ -237,7 +240,7 @@ func (f *filler) fill(v reflect.Value, depth int) {
 		if deep {
 			n = 0
 		}
-		if f.faulty && n > 1 {
+		if (f.faulty || smallMaps) && n > 1 {
 			n = 1
 		}
 		m := reflect.MakeMapWithSize(t, n)
@@ -322,6 +325,9 @@ func (f *filler) genIface(depth int) (out interface{}) {
 		return s
 	case 7:
 		n := r.Intn(4)
+		if smallMaps && n > 1 {
+			n = 1
+		}
 		m := map[string]interface{}{}
 		for i := 0; i < n; i++ {
 			m[genKey(r)] = f.genIface(depth + 1)
@@ -334,6 +340,9 @@ func (f *filler) genIface(depth int) (out interface{}) {
 	case 10:
 		return []int{1, 2, r.Intn(9)}
 	case 11:
+		if smallMaps {
+			return map[string]int{genKey(r): 2}
+		}
 		return map[string]int{"one": 1, genKey(r): 2}
 	case 12:
 		x := r.Intn(1 << 20)
